@@ -306,14 +306,15 @@ func evalCalDAV(c Case) (vev.Outcome, error) {
 		return vev.Outcome{}
 	}
 	allReq := caldav.CalendarCompRequest{Name: "VCALENDAR", AllProps: true, AllComps: true}
+	pass := func() vev.Outcome {
 	for _, cc := range c.Colls {
 		p := collPath(cc)
 		got, err := cl.QueryCalendar(ctx, p, &caldav.CalendarQuery{CompRequest: allReq, CompFilter: caldav.CompFilter{Name: "VCALENDAR"}})
 		if err != nil {
-			return dev("caldav|query|error", "QueryCalendar(%q): %v", p, err), nil
+			return dev("caldav|query|error", "QueryCalendar(%q): %v", p, err)
 		}
 		if o := cmp("query", got, wantObjs[p]); !o.OK() {
-			return o, nil
+			return o
 		}
 		if len(wantObjs[p]) > 0 {
 			var paths []string
@@ -322,22 +323,63 @@ func evalCalDAV(c Case) (vev.Outcome, error) {
 			}
 			got, err := cl.MultiGetCalendar(ctx, p, &caldav.CalendarMultiGet{Paths: paths, CompRequest: allReq})
 			if err != nil {
-				return dev("caldav|multiget|error", "MultiGetCalendar(%q): %v", p, err), nil
+				return dev("caldav|multiget|error", "MultiGetCalendar(%q): %v", p, err)
 			}
 			rev := make([]want, len(wantObjs[p]))
 			for i, w := range wantObjs[p] {
 				rev[len(rev)-1-i] = w
 			}
 			if o := cmp("multiget", got, rev); !o.OK() {
-				return o, nil
+				return o
 			}
 		}
 		for _, w := range wantObjs[p] {
 			g, err := cl.GetCalendarObject(ctx, w.path)
 			if err != nil {
-				return dev("caldav|get|error", "GetCalendarObject(%q): %v", w.path, err), nil
+				return dev("caldav|get|error", "GetCalendarObject(%q): %v", w.path, err)
 			}
 			if o := cmp("get", []caldav.CalendarObject{*g}, []want{w}); !o.OK() {
+				return o
+			}
+		}
+	}
+		return vev.Outcome{}
+	}
+	if o := pass(); !o.OK() {
+		return o, nil
+	}
+	// a second round through the same handler and the same client after the backend's data has changed under the
+	// same paths and entity tags (after C10-s13: what a call returns is what the backend returned to *this* call -
+	// partial retrieval and expansion legitimately produce different data for one path and tag)
+	{
+		var all []*caldav.CalendarObject
+		var wants []*want
+		for _, cc := range c.Colls {
+			p := collPath(cc)
+			for i := range b.Objects[p] {
+				all = append(all, &b.Objects[p][i])
+				wants = append(wants, &wantObjs[p][i])
+			}
+		}
+		if len(all) > 0 {
+			alt := buildCal(Obj{Name: "changed.ics", Comps: []Comp{{Name: "VTODO", UID: "changed", Props: []P{{Name: "SUMMARY", Text: "changed under the same tag"}}}}})
+			altRef, _, err := icalRef(alt)
+			if err != nil {
+				return vev.Outcome{}, err
+			}
+			d0, c0 := all[0].Data, wants[0].content
+			for i := range all {
+				if i+1 < len(all) {
+					all[i].Data, wants[i].content = all[i+1].Data, wants[i+1].content
+				} else if len(all) > 1 {
+					all[i].Data, wants[i].content = d0, c0
+				} else {
+					all[i].Data, wants[i].content = alt, altRef
+				}
+			}
+			if o := pass(); !o.OK() {
+				o.Sig = "again|" + o.Sig
+				o.Msg = "second round, data changed under the same paths and tags: " + o.Msg
 				return o, nil
 			}
 		}
@@ -474,14 +516,15 @@ func evalCardDAV(c Case) (vev.Outcome, error) {
 		}
 		return vev.Outcome{}
 	}
+	pass := func() vev.Outcome {
 	for _, cc := range c.Colls {
 		p := collPath(cc)
 		got, err := cl.QueryAddressBook(ctx, p, &carddav.AddressBookQuery{DataRequest: carddav.AddressDataRequest{AllProp: true}})
 		if err != nil {
-			return dev("carddav|query|error", "QueryAddressBook(%q): %v", p, err), nil
+			return dev("carddav|query|error", "QueryAddressBook(%q): %v", p, err)
 		}
 		if o := cmp("query", got, wantObjs[p]); !o.OK() {
-			return o, nil
+			return o
 		}
 		if len(wantObjs[p]) > 0 {
 			var paths []string
@@ -490,18 +533,57 @@ func evalCardDAV(c Case) (vev.Outcome, error) {
 			}
 			got, err := cl.MultiGetAddressBook(ctx, p, &carddav.AddressBookMultiGet{Paths: paths, DataRequest: carddav.AddressDataRequest{AllProp: true}})
 			if err != nil {
-				return dev("carddav|multiget|error", "MultiGetAddressBook(%q): %v", p, err), nil
+				return dev("carddav|multiget|error", "MultiGetAddressBook(%q): %v", p, err)
 			}
 			if o := cmp("multiget", got, wantObjs[p]); !o.OK() {
-				return o, nil
+				return o
 			}
 		}
 		for _, w := range wantObjs[p] {
 			g, err := cl.GetAddressObject(ctx, w.path)
 			if err != nil {
-				return dev("carddav|get|error", "GetAddressObject(%q): %v", w.path, err), nil
+				return dev("carddav|get|error", "GetAddressObject(%q): %v", w.path, err)
 			}
 			if o := cmp("get", []carddav.AddressObject{*g}, []want{w}); !o.OK() {
+				return o
+			}
+		}
+	}
+		return vev.Outcome{}
+	}
+	if o := pass(); !o.OK() {
+		return o, nil
+	}
+	// second round: same handler, same client, data changed under the same paths and tags (see evalCalDAV)
+	{
+		var all []*carddav.AddressObject
+		var wants []*want
+		for _, cc := range c.Colls {
+			p := collPath(cc)
+			for i := range b.Objects[p] {
+				all = append(all, &b.Objects[p][i])
+				wants = append(wants, &wantObjs[p][i])
+			}
+		}
+		if len(all) > 0 {
+			alt := buildCard(Obj{Name: "changed under the same tag", Card: []P{{Name: "NOTE", Text: "changed"}}})
+			altRef, _, err := cardRef(alt)
+			if err != nil {
+				return vev.Outcome{}, err
+			}
+			d0, c0 := all[0].Card, wants[0].content
+			for i := range all {
+				if i+1 < len(all) {
+					all[i].Card, wants[i].content = all[i+1].Card, wants[i+1].content
+				} else if len(all) > 1 {
+					all[i].Card, wants[i].content = d0, c0
+				} else {
+					all[i].Card, wants[i].content = alt, altRef
+				}
+			}
+			if o := pass(); !o.OK() {
+				o.Sig = "again|" + o.Sig
+				o.Msg = "second round, data changed under the same paths and tags: " + o.Msg
 				return o, nil
 			}
 		}
